@@ -100,6 +100,8 @@ def main():
   import contracts as C
   units = C.UNITS.get(prop, [])
   known = load_known()
+  bpath = os.path.join(HERE, 'baseline', prop + '.json')
+  baseline = set(json.load(open(bpath))['discharged']) if os.path.exists(bpath) else set()
   prog = Program()
   known_obls = 0
   replay_cache = {}
@@ -194,6 +196,12 @@ def main():
       payload['replay_note'] = rep
 
     if c['status'] == 'unknown' and payload['failing_input'] is None:
+      if cid in baseline:
+        # an obligation that is discharged on the unchanged tree and no longer is: reported as the violation, with the
+        # verifier's output in the replay file (no counterexample available)
+        payload['note'] = 'obligation is discharged on the unchanged tree (baseline/%s.json) and is not dischargeable on this tree' % prop
+        violations.append((cid, payload))
+        continue
       undecided.append((cid, 'solver returned unknown (%s) and no failing input was found' % fail.get('reason')))
       continue
     violations.append((cid, payload))
@@ -290,6 +298,10 @@ def main():
   os.makedirs(os.path.join(HERE, 'evidence'), exist_ok=True)
   with open(os.path.join(HERE, 'evidence', prop + '.json'), 'w') as f:
     json.dump(ev, f, indent=1, default=str)
+  if os.environ.get('VERIF_WRITE_BASELINE') == '1':
+    os.makedirs(os.path.join(HERE, 'baseline'), exist_ok=True)
+    with open(bpath, 'w') as f:
+      json.dump(dict(property=prop, tree=prog.tree_hash(), discharged=sorted(cid for cid, c in clauses.items() if c['status'] == 'discharged')), f, indent=0)
   if ns.verbose:
     for cid, c in sorted(clauses.items()):
       print('  %-11s %-90s paths=%d %.3fs' % (c['status'], cid, c['paths'], c['seconds']))
